@@ -36,6 +36,7 @@ type c12Unit struct {
 	m   *lexnfa.Model
 	c   *cfg.CFG
 	d   *cfg.Deriver
+	lr  *cfg.LR1
 	src string
 	big bool
 }
@@ -63,8 +64,9 @@ func init() {
 					r.t.Fatalf("INFRA: %v", err)
 				}
 				u.c, u.d = c, cfg.NewDeriver(c, true)
-				if lr, err := cfg.BuildLR1(c); err == nil && len(lr.States) >= 6 {
-					u.big = true
+				if lr, err := cfg.BuildLR1(c); err == nil {
+					u.lr = lr
+					u.big = len(lr.States) >= 6
 				}
 			}
 			us = append(us, u)
@@ -78,6 +80,12 @@ func init() {
 			}
 			if u.c != nil {
 				in := gen.DrawParseInput(rt, u.c, u.d, mt, 3, 40)
+				if u.lr != nil && rapid.IntRange(0, 2).Draw(rt, "aimAtEntry") == 0 {
+					// every entry of the (possibly re-encoded) tables gets its turn
+					if toks, ok := aimAtEntry(rt, u.lr, u.c, mt, false); ok {
+						in.Toks = toks
+					}
+				}
 				for _, t := range in.Toks {
 					if t < 0 {
 						c.Toks = append(c.Toks, "INVALID")
